@@ -220,8 +220,20 @@ func (l *execLog) addT(kind string, pos int, attempts, retries, hedges, executio
 	}
 }
 
+// attemptsSeen is Attempts() as the observer reads it -- negated when IsFirstAttempt / IsRetry, read by the same observer,
+// disagree with it (documented: first attempt = Attempts is 1, retry = Attempts > 1), so that the disagreement shows in
+// the comparison with the model and in the counter checker.
+func attemptsSeen(e failsafe.ExecutionAttempt[int]) int {
+	att := e.Attempts()
+	first, retry := e.IsFirstAttempt(), e.IsRetry()
+	if e.Attempts() == att && (first != (att == 1) || retry != (att > 1)) { // the counter is shared: only judge a stable reading
+		return -att
+	}
+	return att
+}
+
 func (l *execLog) attempt(kind string, pos int, e failsafe.ExecutionAttempt[int], aux int64) {
-	l.addT(kind, pos, e.Attempts(), e.Retries(), e.Hedges(), e.Executions(), gOutcome(e.LastResult(), e.LastError()), aux, l.abs(e.StartTime()), l.abs(e.AttemptStartTime()))
+	l.addT(kind, pos, attemptsSeen(e), e.Retries(), e.Hedges(), e.Executions(), gOutcome(e.LastResult(), e.LastError()), aux, l.abs(e.StartTime()), l.abs(e.AttemptStartTime()))
 }
 
 func (l *execLog) done(kind string, pos int, e failsafe.ExecutionDoneEvent[int]) {
